@@ -66,6 +66,20 @@ func runC09(env *core.Env) {
 			cfgs = append(cfgs, c)
 		}
 	}
+	// stores whose tasks depend on each other in a cycle (each clone of a merged log added one direction): the prune
+	// policy does not mention dependencies, so it must come out the same
+	for _, c := range c08Configs(2, c08Full, 3) {
+		if len(c.Deps) == 0 && c.EpicDep == 0 && !c.E2Gone {
+			c.Deps = [][2]int{{0, 1}, {1, 0}}
+			cfgs = append(cfgs, c)
+		}
+	}
+	for _, c := range c08Configs(3, c08Small, 2) {
+		if len(c.Deps) == 0 && c.EpicDep == 0 && !c.E2Gone {
+			c.Deps = [][2]int{{0, 1}, {1, 2}, {2, 0}}
+			cfgs = append(cfgs, c)
+		}
+	}
 	var evalsA, prunedSomething, followUps int64
 	classes := newCounter()
 	samples := &sampleSet{max: 8}
